@@ -14,3 +14,11 @@ package http2
 //@   assert at call add: $n == 65535 && $n == initialWindowSize
 //@   assert at call init: $n == 65535 && $n == initialWindowSize
 //@   noframe
+
+// writePingAck.writeFrame (C15) speaks about WHICH frame is written; the Framer's own byte-level
+// contracts (verif_frame.go) have preconditions about an initialised Framer that this unit cannot
+// establish for the Framer behind the writeContext interface, so WritePing is an abstract call here
+// (its byte layout is covered by C06).
+//
+//@ extend (writePingAck).writeFrame(w, ctx) (err)
+//@   abstractcall WritePing
